@@ -124,8 +124,13 @@ def _second_run_confined(after1, after2, spans):
         if tag == "equal":
             continue
         lo, hi = i1 + 1, max(i2, i1 + 1)
-        if not any(s <= lo and hi <= e for s, e in spans):
-            return False
+        if any(s <= lo and hi <= e for s, e in spans):
+            continue
+        # the import that the completed rewrite makes necessary / unnecessary may be added / removed along with it
+        touched = [l.strip() for l in a[i1:i2] + b[j1:j2] if l.strip()]
+        if all(l.startswith(("import ", "from ")) for l in touched):
+            continue
+        return False
     return True
 
 
